@@ -107,8 +107,16 @@ func rulesC19(c *Ctx) {
 		stI, ci := fieldIndex(T, "isCached")
 		_ = stI
 		stores := 0
+		// cache stores, lifted to the call sites when they sit in a private store helper without results
+		type cacheStore struct {
+			f    *ssa.Function
+			b    *ssa.BasicBlock
+			in   ssa.Instruction
+			val  ssa.Value
+			what string
+		}
+		var cstores []cacheStore
 		for _, f := range fns {
-			facts := factsFor(f)
 			eachInstr(f, func(b *ssa.BasicBlock, _ int, in ssa.Instruction) {
 				var val ssa.Value
 				what := ""
@@ -125,6 +133,33 @@ func rulesC19(c *Ctx) {
 				if what == "" {
 					return
 				}
+				if pp, isP := resolve(val).(*ssa.Parameter); isP && f.Signature.Results().Len() == 0 {
+					pi := -1
+					for i, q := range f.Params {
+						if q == pp {
+							pi = i
+						}
+					}
+					lifted := false
+					for _, g := range fns {
+						for _, ci := range Calls(g) {
+							if ci.Static == f && ci.Kind == "call" && pi >= 0 && pi < len(ci.Common.Args) {
+								cstores = append(cstores, cacheStore{g, ci.Block, ci.Instr, ci.Common.Args[pi], what})
+								lifted = true
+							}
+						}
+					}
+					if lifted {
+						return
+					}
+				}
+				cstores = append(cstores, cacheStore{f, b, in, val, what})
+			})
+		}
+		for _, cs := range cstores {
+			f, b, in, val, what := cs.f, cs.b, cs.in, cs.val, cs.what
+			facts := factsFor(f)
+			func() {
 				stores++
 				con := fmt.Sprintf("store into %s cache in %s", what, fname(f))
 				cached := false
@@ -141,6 +176,10 @@ func rulesC19(c *Ctx) {
 				exits := RunPaths(f, in, 0, func(st int, _ ssa.Instruction, _ bool) int { return st }, false, nil)
 				for _, e := range exits {
 					r := e.Instr.(*ssa.Return)
+					if len(r.Results) == 0 {
+						okR, why = false, "the cache is filled in a function without results; cannot relate the cached value to what is returned"
+						continue
+					}
 					if !sameVarOrValue(r.Results[0], val, in, r) {
 						okR, why = false, "a return after the store yields a different template than the cached one"
 					}
@@ -152,7 +191,7 @@ func rulesC19(c *Ctx) {
 					okR, why = false, "no return after the store"
 				}
 				c.Check(okR, "R4", con, in.Pos(), "on the isCached edge; the cached value is what is returned, with a nil error", why)
-			})
+			}()
 		}
 		if ci < 0 || stores < 3 {
 			c.Bad("R4", short+" cache stores", 0, fmt.Sprintf("found %d cache stores (>= 3 expected)", stores))
@@ -172,6 +211,25 @@ func rulesC19(c *Ctx) {
 				var keyVals []ssa.Value
 				if p, isP := resolve(mu.Key).(*ssa.Parameter); isP {
 					keyVals = liftSites(p)
+					// the key may be handed down through more than one private function
+					for depth := 0; depth < 3; depth++ {
+						var next []ssa.Value
+						again := false
+						for _, kv := range keyVals {
+							if p2, isP2 := resolve(kv).(*ssa.Parameter); isP2 {
+								if ls := liftSites(p2); len(ls) > 0 {
+									next = append(next, ls...)
+									again = true
+									continue
+								}
+							}
+							next = append(next, kv)
+						}
+						keyVals = next
+						if !again {
+							break
+						}
+					}
 				}
 				if len(keyVals) == 0 {
 					keyVals = []ssa.Value{mu.Key}
